@@ -169,9 +169,35 @@ class SArr:
     def real(self):
         return _map1(self, _real, _FLOAT if self.dtype.kind == "c" else self.dtype)
 
+    @real.setter
+    def real(self, value):
+        self._set_part(value, True)
+
     @property
     def imag(self):
         return _map1(self, _imag, _FLOAT if self.dtype.kind == "c" else self.dtype)
+
+    @imag.setter
+    def imag(self, value):
+        self._set_part(value, False)
+
+    def _set_part(self, value, real_part: bool):
+        """arr.real = v / arr.imag = v (in place, element-wise; a scalar is broadcast)"""
+        v = asarr(value)
+        vals = list(v.flat) if hasattr(v, "flat") and getattr(v, "shape", ()) != () else [v] * len(self.flat)
+        if len(vals) != len(self.flat):
+            raise ValueError("could not broadcast input array into shape %r" % (self.shape,))
+        if not real_part and self.dtype.kind != "c":
+            raise TypeError("array does not have imaginary part to set")
+        j = SVal(ZERO, ONE, npy=True)
+        for i, x in enumerate(vals):
+            old = self.flat[i]
+            if self.dtype.kind != "c":
+                self.flat[i] = _cast(x, self.dtype)
+            elif real_part:
+                self.flat[i] = _add(_cast(x, _FLOAT), _mul(_imag(old), j))
+            else:
+                self.flat[i] = _add(_real(old), _mul(_cast(x, _FLOAT), j))
 
     def conj(self):
         return _map1(self, lambda x: x.conjugate() if hasattr(x, "conjugate") else x, self.dtype)
